@@ -1054,7 +1054,8 @@ int main(int argc, char** argv)
             auto* storage = static_cast<static_allocator_storage<SZ>*>(region.ptr(Region::blocks_lo + 4096));
             auto* storage2 = static_cast<static_allocator_storage<SZ>*>(region.ptr(Region::blocks_lo + 4096 + SZ + 4096));
             std::size_t bs = (std::size_t[]){256, 512, 1024, 2048}[g.below(4)]; // must divide the storage size
-            run_lifo([&](void* mem, bool second) { return mem ? ::new (mem) static_block_allocator(bs, second ? *storage2 : *storage)
+            std::size_t bs2 = bs == 256 ? 4096 : bs / 2;                           // the partner of a move assignment / swap differs
+            run_lifo([&](void* mem, bool second) { return mem ? ::new (mem) static_block_allocator(second ? bs2 : bs, second ? *storage2 : *storage)
                                                               : static_cast<static_block_allocator*>(nullptr); },
                      [&](const void* p) { return region.off(p); },
                      [&](static_block_allocator& src) { return fmt("static:%zu:%zu:%zu", region.off(src.cur_), region.off(src.end_), src.block_size_); });
@@ -1067,7 +1068,8 @@ int main(int argc, char** argv)
             run_lifo([&](void* mem, bool second) {
                          if (!mem)
                              return static_cast<virtual_block_allocator*>(nullptr);
-                         auto* v = ::new (mem) virtual_block_allocator(bs, nb);
+                         auto* v = second ? ::new (mem) virtual_block_allocator(bs + virtual_memory_page_size, nb + 1) // (the partner differs)
+                                          : ::new (mem) virtual_block_allocator(bs, nb);
                          if (!second)
                              base = v->cur_;
                          return v;
